@@ -284,3 +284,79 @@ package chain
 //@   ensures[replication-disabled-everybody-stores] old(cfg_num_replicators(c.ChainConfig)) <= 0 ==> result0
 //@   at-call ScoreHashString assert[scores-the-given-hash] $arg2 == hash
 //@   at-call IsInTopWithNodes assert[asks-for-the-configured-number] $arg0 == sharder && $arg2 == cfg_num_replicators(c.ChainConfig) && $arg2 >= 1
+
+// ---------------------------------------------------------------- notarization (C31)
+//   tk_valid(v, sig, h, r)   sig is a valid signature, on block hash h, of the node with id v, and v is a
+//                            miner of round r's magic block (what VerifyTickets establishes for every
+//                            ticket it is given; a fact about the ticket's CONTENT, so copies share it)
+//   mbAt(c, r)               the magic block Chain.GetMagicBlock(r) returns (contract above)
+//@ uf tk_valid (Str Str Str Int) Bool
+//@ uf cfg_thr_by_count (Iface) Int
+//@ uf cfg_thr_by_stake (Iface) Int
+//@ uf notar_thr_count (Int Int) Int
+//@ spec mbAt(c *Chain, r int64) *block.MagicBlock = (rs_get(c.MagicBlockStorage, mbOff(r)) != nil ? payload(rs_get(c.MagicBlockStorage, mbOff(r)), block.MagicBlock) : payload(rs_latest(c.MagicBlockStorage), block.MagicBlock))
+//@ spec ticketStake(c *Chain, bvt []*block.VerificationTicket, n int) int = sumof k in 0..n :: c.minersStake[bvt[k].VerifierID]
+//@ iface 0chain.net/core/config.ChainConfig.ThresholdByCount
+//@   params self
+//@   pure
+//@   ensures result == cfg_thr_by_count(self)
+//@ iface 0chain.net/core/config.ChainConfig.ThresholdByStake
+//@   params self
+//@   pure
+//@   ensures result == cfg_thr_by_stake(self)
+//@ func (*Chain).GetNotarizationThresholdCount
+//@   trusted
+//@   ensures result == notar_thr_count(obj(c), minersNumber)
+//@   modifies nothing
+//@ func (*Chain).GetCurrentRound
+//@   trusted
+//@   modifies nothing
+//@ func 0chain.net/chaincore/node.(*Pool).Size
+//@   trusted
+//@   ensures result == len(np.NodesMap)
+//@   modifies nothing
+//@ assume func 0chain.net/core/maths.SafeAddUInt64
+//@   params left right
+//@   pure
+//@   ensures result1 == nil ==> result0 == left + right
+//@   ensures result1 != nil ==> left + right > MaxUint64
+
+// The tickets of a block reach notarization only if there are at least the threshold count of them
+// (when the count threshold is on) and their verifiers' stakes add up to at least the stake threshold
+// (when that is on). The count is a count of TICKETS: that they are distinct and verified is the callers'.
+//@ func (*Chain).reachedNotarization
+//@   prop C31
+//@   requires c != nil && round >= 0 && rheld(c.mbMutex) == 0 && held(c.mbMutex) == 0
+//@   ensures[count-threshold] result && cfg_thr_by_count(c.ChainConfig) > 0 ==> len(bvt) >= notar_thr_count(obj(c), len(mbAt(c, round).Miners.NodesMap))
+//@   ensures[stake-threshold] result && cfg_thr_by_stake(c.ChainConfig) > 0 ==> ticketStake(c, bvt, len(bvt)) >= cfg_thr_by_stake(c.ChainConfig)
+//@   modifies c.mbMutex
+//@   loop 1 header "for _, ticket := range bvt"
+//@   loop 1 invariant verifiersStake == ticketStake(c, bvt, $idx + 1)
+
+// Verification of a whole notarization: no ticket missing, no verifier twice, the threshold reached,
+// and every ticket verified as a signature of a miner of the round on this block's hash.
+//@ func (*Chain).VerifyTickets
+//@   trusted
+//@   modifies nothing
+//@   ensures result == nil ==> forall i in 0..len(bvts) :: tk_valid(bvts[i].VerifierID, bvts[i].Signature, blockHash, round)
+//@ func (*Chain).VerifyNotarization
+//@   prop C31
+//@   requires c != nil && round >= 0 && rheld(c.mbMutex) == 0 && held(c.mbMutex) == 0
+//@   ensures[tickets-present] err == nil ==> bvt != nil
+//@   ensures[no-verifier-twice] err == nil ==> forall i in 0..len(bvt) :: (forall j in i+1..len(bvt) :: bvt[i].VerifierID != bvt[j].VerifierID)
+//@   ensures[every-ticket-verified-for-this-block] err == nil ==> forall i in 0..len(bvt) :: tk_valid(bvt[i].VerifierID, bvt[i].Signature, hash, round)
+//@   at-call VerifyTickets assert[threshold-reached-before-signatures-are-checked] $arg2 == hash && $arg4 == round
+//@   loop 1 header "for _, vt := range bvt"
+//@   loop 1 invariant ticketsMap != nil
+//@   loop 1 invariant forall k in 0..$idx+1 :: (bvt[k].VerifierID in ticketsMap)
+//@   loop 1 invariant forall i in 0..$idx+1 :: (forall j in i+1..$idx+1 :: bvt[i].VerifierID != bvt[j].VerifierID)
+
+// A block is marked notarized by UpdateBlockNotarization only when its tickets reach notarization.
+//@ func (*Chain).VerifyRelatedMagicBlockPresence
+//@   trusted
+//@   modifies nothing
+//@ func (*Chain).UpdateBlockNotarization
+//@   prop C31
+//@   requires c != nil && b != nil && b.Round >= 0 && rheld(c.mbMutex) == 0 && held(c.mbMutex) == 0
+//@   opaque SetBlockNotarized
+//@   at-call SetBlockNotarized assert[only-the-examined-block] $arg0 == b
